@@ -79,6 +79,8 @@ type Env struct {
 	St   Stats
 	base struct{ mem, l0, nl0, seek int }
 
+	batch *leveldb.Batch // one Batch object reused (Reset) by a quarter of the batch writes
+
 	snaps    []*snapH
 	iters    []*iterH
 	pinMu    sync.Mutex
@@ -318,6 +320,27 @@ func guarded(b []byte) (arg []byte, intact func() bool) {
 	return buf[:len(b)], func() bool { return bytes.Equal(buf, ref) }
 }
 
+type batchReplay struct {
+	recs []struct {
+		k, v []byte
+		del  bool
+	}
+}
+
+func (r *batchReplay) Put(k, v []byte) {
+	r.recs = append(r.recs, struct {
+		k, v []byte
+		del  bool
+	}{append([]byte{}, k...), append([]byte{}, v...), false})
+}
+
+func (r *batchReplay) Delete(k []byte) {
+	r.recs = append(r.recs, struct {
+		k, v []byte
+		del  bool
+	}{append([]byte{}, k...), nil, true})
+}
+
 func scribble(b []byte) {
 	for i := range b {
 		b[i] = 0xAA
@@ -553,7 +576,21 @@ func (e *Env) Step(i int, op *Op) error {
 		return e.afterWrite([][]byte{k})
 
 	case "batch":
+		// the Batch object comes in four flavours (picked by position, no extra draw): fresh,
+		// one object reused with Reset for the whole case, pre-sized with MakeBatch, and a
+		// second object loaded from the first one's Dump
+		variant := (i + len(op.B)) % 4
 		b := new(leveldb.Batch)
+		switch variant {
+		case 1:
+			if e.batch == nil {
+				e.batch = new(leveldb.Batch)
+			}
+			b = e.batch
+			b.Reset()
+		case 2:
+			b = leveldb.MakeBatch(16 * len(op.B))
+		}
 		var keys [][]byte
 		ilen := 0
 		type rec struct {
@@ -586,6 +623,32 @@ func (e *Env) Step(i int, op *Op) error {
 				scribble(s)
 			}
 			e.St.Scribbles++
+		}
+		if b.Len() != len(op.B) {
+			return e.fail("Batch.Len() = %d after %d Put/Delete calls", b.Len(), len(op.B))
+		}
+		// Replay hands back exactly the recorded operations, in order
+		rp := &batchReplay{}
+		if rerr := b.Replay(rp); rerr != nil {
+			return e.fail("Batch.Replay: %v", rerr)
+		}
+		if len(rp.recs) != len(recs) {
+			return e.fail("Batch.Replay yields %d operations, %d were recorded", len(rp.recs), len(recs))
+		}
+		for j := range recs {
+			if rp.recs[j].del != recs[j].del || !bytes.Equal(rp.recs[j].k, recs[j].k) || !bytes.Equal(rp.recs[j].v, recs[j].v) {
+				return e.fail("Batch.Replay operation #%d differs from what was recorded", j)
+			}
+		}
+		if variant == 3 {
+			b2 := new(leveldb.Batch)
+			if lerr := b2.Load(append([]byte{}, b.Dump()...)); lerr != nil {
+				return e.fail("Batch.Load(Dump()): %v", lerr)
+			}
+			if b2.Len() != b.Len() || !bytes.Equal(b2.Dump(), b.Dump()) {
+				return e.fail("Batch.Load(Dump()) is not the same batch (%d vs %d operations)", b2.Len(), b.Len())
+			}
+			b = b2
 		}
 		dump := append([]byte{}, b.Dump()...)
 		tgt := e.M
